@@ -79,6 +79,40 @@ def Node.http (n : Node) (sid : Sid) (body : Bytes) : Node × Bytes × List Ev :
     | (n, evs2) => (n, Bytes.join [59] resps, evs ++ evs2.filter (evNotForSid sid))
 
 
+/-! ### the per-request glue of the socket front ends -/
+
+/-- what `tcp_ops::handle_client` writes on a new connection before it reads anything (a websocket and an http request get no greeting) -/
+def tcpGreeting : Bytes := b!"ok \n"
+
+/-- the line a socket front end sends after a request: `error <msg>` for an error — the websocket
+handler also for a version error, the tcp loop answers that with `ok` — else `ok` -/
+def transportTrailer (ws : Bool) : Resp → Bytes
+  | .error msg => b!"error " ++ msg ++ b!" \n"
+  | .versionError msg .. => if ws then b!"error " ++ msg ++ b!" \n" else b!"ok \n"
+  | _ => b!"ok \n"
+
+/-- what one request puts on the connection's own socket: everything it pushed on the session's
+channel, in order, then the trailer (the trailer travels through the same channel) -/
+def socketBytes (ws : Bool) (sid : Sid) (r : Resp) (es : List Ev) : Bytes :=
+  (es.filterMap (evForSid sid)).foldr (· ++ ·) [] ++ transportTrailer ws r
+
+/-- `tcp_ops::handle_client`, one line read from the socket (the line ends in `\n`, which the parser
+removes): the bytes the connection receives, the events for everybody else -/
+def Node.tcpLine (n : Node) (sid : Sid) (line : Bytes) : Node × Bytes × List Ev :=
+  match n.exec sid (line ++ [10]) with
+  | (n, r, es) => (n, socketBytes false sid r es, es.filter (evNotForSid sid))
+
+/-- `ws_ops::on_message` over the pieces of one text message split at `;` (no trimming, no skipping:
+an empty piece is a request of its own) -/
+def wsLoop (sid : Sid) : List Bytes → Node → Bytes → List Ev → Node × Bytes × List Ev
+  | [], n, out, evs => (n, out, evs)
+  | piece :: rest, n, out, evs =>
+    match n.exec sid piece with
+    | (n, r, es) => wsLoop sid rest n (out ++ socketBytes true sid r es) (evs ++ es.filter (evNotForSid sid))
+
+def Node.wsMessage (n : Node) (sid : Sid) (text : Bytes) : Node × Bytes × List Ev :=
+  wsLoop sid (Bytes.splitAll 59 text) n [] []
+
 def dedupConsecutive : List (Bytes × Bool) → List (Bytes × Bool)
   | [] => []
   | [x] => [x]
